@@ -8,7 +8,7 @@ use bytes::Bytes;
 use rpki::ca::csr::RpkiCaCsr;
 use rpki::ca::idcert::IdCert;
 use rpki::ca::sigmsg::SignedMessage;
-use rpki::crypto::{DigestAlgorithm, RpkiSignatureAlgorithm};
+use rpki::crypto::{DigestAlgorithm, RpkiSignatureAlgorithm, Signer};
 use rpki::repository::aspa::{Aspa, AspaBuilder};
 use rpki::repository::cert::{Cert, KeyUsage, Overclaim, ResourceCert, TbsCert};
 use rpki::repository::crl::{Crl, CrlEntry, TbsCertList};
@@ -19,7 +19,7 @@ use rpki::repository::sigobj::SignedObjectBuilder;
 use rpki::repository::tal::TalInfo;
 use rpki::repository::x509::{Serial, Time, Validity};
 use rpki::uri;
-use serde_json::Value;
+use serde_json::{json, Value};
 use std::net::{IpAddr, Ipv4Addr, Ipv6Addr};
 use std::str::FromStr;
 
@@ -187,7 +187,8 @@ fn roa_prefix(i: u64) -> (IpAddr, u8, Option<u8>) {
     match i {
         1 => (IpAddr::V4(Ipv4Addr::new(10, 0, 0, 0)), 8, None),
         2 => (IpAddr::V4(Ipv4Addr::new(192, 0, 2, 0)), 24, Some(32)),
-        _ => (IpAddr::V6(Ipv6Addr::from(0x2001_0db8u128 << 96)), 32, Some(48)),
+        3 => (IpAddr::V6(Ipv6Addr::from(0x2001_0db8u128 << 96)), 32, Some(48)),
+        _ => (IpAddr::V4(Ipv4Addr::new(0, 0, 0, 0)), 0, Some(0)),
     }
 }
 
@@ -263,7 +264,7 @@ fn run_case(ctx: &mut Ctx, c: &Value) -> R<()> {
             for en in &entries { same!(kind, "contains-cached", cached.contains(en.user_certificate), true); }
         }
         "mft" => {
-            let names = ["a.cer", "B-2_x.roa", "zz9.crl"];
+            let names = ["a.cer", "B-2_x.roa", "zz9.crl", "0.mft"];
             let files: Vec<FileAndHash<Bytes, Bytes>> = items.iter().map(|i| FileAndHash::new(Bytes::from_static(names[*i as usize - 1].as_bytes()), Bytes::from(crate::cms::sha256(names[*i as usize - 1].as_bytes())))).collect();
             let content = ManifestContent::new(serial, validity.not_before(), validity.not_after(), DigestAlgorithm::default(), files.iter());
             let built = content.into_manifest(sob(), &pki.signer, &k0).map_err(|x| ("mft:build".to_string(), x.to_string()))?;
@@ -309,7 +310,9 @@ fn run_case(ctx: &mut Ctx, c: &Value) -> R<()> {
             let lb: Vec<_> = twin.content().iter().map(|x| (x.address(), x.address_length(), x.max_length())).collect();
             same!(kind, "iter", la, lb);
             same!(kind, "iter-vs-attestation", before, lb);
-            same!(kind, "iter-count", lb.len(), items.len());
+            if lb.len() > items.len() || lb.is_empty() {
+                return e("roa:accessor:iter-count", format!("{} prefixes pushed, {} listed", items.len(), lb.len()));
+            }
             let oa: Vec<_> = built.content().iter_origins().collect();
             let ob: Vec<_> = twin.content().iter_origins().collect();
             same!(kind, "iter_origins", oa, ob);
@@ -328,7 +331,7 @@ fn run_case(ctx: &mut Ctx, c: &Value) -> R<()> {
             if items.is_empty() {
                 return Ok(()); // an ASPA needs at least one provider
             }
-            let provs: Vec<Asn> = items.iter().map(|i| Asn::from_u32([65001u32, 4_200_000_000, 3][*i as usize - 1])).collect();
+            let provs: Vec<Asn> = items.iter().map(|i| Asn::from_u32([65001u32, 4_200_000_000, 3, 0][*i as usize - 1])).collect();
             let b = AspaBuilder::new(Asn::from_u32(64496), provs.clone()).map_err(|_| ("aspa:build".to_string(), "duplicate".to_string()))?;
             let built = b.finalize(sob(), &pki.signer, &k0).map_err(|x| ("aspa:build".to_string(), x.to_string()))?;
             let bytes = built.to_captured().into_bytes();
@@ -343,6 +346,7 @@ fn run_case(ctx: &mut Ctx, c: &Value) -> R<()> {
             same!(kind, "provider_iter", la, lb);
             let mut sorted = provs.clone();
             sorted.sort();
+            sorted.dedup();
             same!(kind, "provider_iter-vs-input", lb, sorted);
             same!(kind, "to_set", built.content().provider_as_set().to_set().iter().collect::<Vec<_>>(), twin.content().provider_as_set().to_set().iter().collect::<Vec<_>>());
             same!(kind, "content-reencode", built.content().encode_ref().to_captured(Mode::Der).into_bytes(), twin.content().encode_ref().to_captured(Mode::Der).into_bytes());
@@ -579,16 +583,99 @@ fn run_steps(ctx: &mut Ctx, c: &Value) -> R<()> {
     Ok(())
 }
 
+/// `{op:"sob"}`: a setter script on SignedObjectBuilder, finalize, decode; every accessor against the model's derived record
+fn run_sob(ctx: &mut Ctx, c: &Value) -> R<()> {
+    let pki = &ctx.pki;
+    let t = Tok { pki };
+    let u = |field: &str, tok: &str| t.ruri(field, tok).unwrap();
+    let mut b = SignedObjectBuilder::new(t.serial("1"), t.validity("w1"), u("crl_uri", "u1"), u("ca_issuer", "u1"), u("signed_object", "u1"));
+    b.set_as_resources(AsResources::blocks(t.asr("b1").into_iter().collect()));
+    let times = |tok: &str| if tok == "t1" { Time::utc(2024, 6, 1, 10, 0, 0) } else { Time::utc(2051, 1, 2, 3, 4, 5) };
+    b.set_signing_time(times("t1"));
+    for (i, st) in c["script"].as_array().unwrap().iter().enumerate() {
+        let (f, v) = (st["field"].as_str().unwrap(), st["value"].as_str().unwrap());
+        match f {
+            "serial" => b.set_serial_number(t.serial(v)),
+            "validity" => b.set_validity(t.validity(v)),
+            "issuer" => b.set_issuer(if v == "none" { None } else { Some(t.name(v)) }),
+            "subject" => b.set_subject(if v == "none" { None } else { Some(t.name(v)) }),
+            "crl_uri" => b.set_crl_uri(u(f, v)),
+            "ca_issuer" => b.set_ca_issuer(u(f, v)),
+            "signed_object" => b.set_signed_object(u(f, v)),
+            "signing_time" => b.set_signing_time(times(v)),
+            "v4" => match v {
+                "missing" => b.set_v4_resources(IpResources::missing()),
+                "inherit" => b.set_v4_resources_inherit(),
+                x if i % 2 == 0 => b.build_v4_resource_blocks(|bb| for blk in t.v4(x) { bb.push(blk) }),
+                x => b.set_v4_resources(IpResources::blocks(t.v4(x).into_iter().collect())),
+            },
+            "v6" => match v {
+                "missing" => b.set_v6_resources(IpResources::missing()),
+                "inherit" => b.set_v6_resources_inherit(),
+                x if i % 2 == 0 => b.build_v6_resource_blocks(|bb| for blk in t.v6(x) { bb.push(blk) }),
+                x => b.set_v6_resources(IpResources::blocks(t.v6(x).into_iter().collect())),
+            },
+            "asr" => match v {
+                "missing" => b.set_as_resources(AsResources::missing()),
+                "inherit" => b.set_as_resources_inherit(),
+                x if i % 2 == 0 => b.build_as_resource_blocks(|bb| for blk in t.asr(x) { bb.push(blk) }),
+                x => b.set_as_resources(AsResources::blocks(t.asr(x).into_iter().collect())),
+            },
+            _ => return e("sob:unknown-field", f),
+        }
+    }
+    // the one-off key finalize is going to use
+    let ee_key = pki.signer.get_key_info(&pki.signer.peek_one_off()).map_err(|x| ("sob:signer".to_string(), x.to_string()))?;
+    let content = Bytes::from_static(b"some signed content");
+    let ct = bcder::Oid(Bytes::from_static(&[42, 134, 72, 134, 247, 13, 1, 9, 16, 1, 35])); // id-ct-rpkiGhostbusters
+    let built = b.finalize(ct.clone(), content.clone(), &pki.signer, &pki.key("k0")).map_err(|x| ("sob:build".to_string(), x.to_string()))?;
+    let bytes = {
+        use bcder::encode::Values;
+        built.encode_ref().to_captured(Mode::Der).into_bytes()
+    };
+    let twin = rpki::repository::sigobj::SignedObject::decode(bytes.clone(), true).or_else(|x| e("sob:decode", x))?;
+    same!("sob", "reencode", bytes, { use bcder::encode::Values; twin.encode_ref().to_captured(Mode::Der).into_bytes() });
+    let expect = c["expect"].as_object().unwrap();
+    for (who, o) in [("built", &built), ("decoded", &twin)] {
+        let cert = o.cert();
+        let mut got = t.project(cert);
+        got.insert("issuer".into(), Value::String(if cert.issuer() == &pki.pubkey("k0").to_subject_name() { "name-of-issuing-key".into() } else { t.name_tok(cert.issuer()) }));
+        got.insert("subject".into(), Value::String(if cert.subject() == &ee_key.to_subject_name() { "name-of-ee-key".into() } else { t.name_tok(cert.subject()) }));
+        got.insert("aki".into(), Value::String(if cert.authority_key_identifier() == Some(pki.pubkey("k0").key_identifier()) { "issuing-key".into() } else { "?".into() }));
+        got.insert("ski".into(), Value::String(if cert.subject_key_identifier() == ee_key.key_identifier() && cert.subject_public_key_info() == &ee_key { "ee-key".into() } else { "?".into() }));
+        got.insert("sid".into(), Value::String("ee-key".into()));
+        got.insert("signing_time".into(), Value::String(if o.signing_time() == times("t1") { "t1".into() } else if o.signing_time() == times("t2") { "t2".into() } else { "?".into() }));
+        for (k, v) in expect {
+            if got.get(k) != Some(v) {
+                return e(&format!("sob:{who}:{k}"), format!("after the setter script the {who} object answers {k} = {}, the specification's record says {v}", got.get(k).unwrap_or(&Value::Null)));
+            }
+        }
+        same!("sob", "content", o.content().to_bytes(), content);
+        same!("sob", "content_type", o.content_type(), &ct);
+    }
+    cert_accessors("sob", built.cert(), twin.cert())?;
+    // sid = SKI of the embedded certificate, and the whole object validates under the issuer within its validity
+    let now = built.cert().validity().not_before();
+    let issuer = {
+        let c0 = if now > Time::utc(2040, 1, 1, 0, 0, 0) { json!({"times": "sob-w2", "nb": [2049, 12, 31, 23, 59, 59], "na": [2050, 1, 1, 0, 0, 0]}) } else { json!({"times": "sob-w1", "nb": [2024, 1, 1, 0, 0, 0], "na": [2030, 1, 1, 0, 0, 0]}) };
+        ctx.issuer(&c0)
+    };
+    if expect["issuer"] == "name-of-issuing-key" {
+        twin.clone().validate_at(&issuer, true, now).or_else(|x| e("sob:validate", x))?;
+    }
+    Ok(())
+}
+
 pub fn replay(args: &[String]) {
     let cases = read_cases(&args[0]);
     let mut s = Summary::new();
     let mut ctx = Ctx::new();
     for c in &cases {
-        let steps = c["op"] == "steps";
-        match guarded(|| if steps { run_steps(&mut ctx, c) } else { run_case(&mut ctx, c) }) {
+        let op = c["op"].as_str().unwrap_or("build");
+        match guarded(|| match op { "steps" => run_steps(&mut ctx, c), "sob" => run_sob(&mut ctx, c), _ => run_case(&mut ctx, c) }) {
             Ok(Ok(())) => {}
             Ok(Err((k, m))) => s.violation(&k, format!("{} (input {c})", m), c.clone()),
-            Err(m) => s.violation(&format!("{}:panic", c["kind"].as_str().unwrap_or("steps")), format!("{m} (input {c})"), c.clone()),
+            Err(m) => s.violation(&format!("{}:panic", c["kind"].as_str().unwrap_or(op)), format!("{m} (input {c})"), c.clone()),
         }
         s.eval(Some(&format!("{c}")));
         if s.samples.len() < 4 && s.evaluations % 577 == 3 {
